@@ -52,9 +52,11 @@ class SeededTwin(c15.Twin):
         return digest_str(self.a.digest() + self.b.digest() + nd)
 
 
-def build_world(t, seed_shift=0):
+def build_world(t, seed_shift=0, other=False):
     src, cfg = t["src"], dict(t["cfg"])
     cfg["seed"] = cfg["seed"] + seed_shift
+    if other and t.get("noise_kw"):
+        cfg["kw"] = dict(cfg.get("kw", {}), **t["noise_kw"])   # the interleaved instance works on another space (same names)
     if src in ("c03", "c04", "c05"):
         mod = {"c03": c03, "c04": c04, "c05": c05}[src]
         w = mod.build_world(cfg)
@@ -67,8 +69,11 @@ def build_twin(t):
     # all three schedulers are built from the same argument objects (search_options dict, restrict_configurations list)
     scheds.share(True)
     try:
-        noise = build_world(t, seed_shift=1) if t.get("noise", True) else None
-        return SeededTwin(build_world(t), build_world(t), noise)
+        # order of creation: twin A, the unrelated instance, twin B (state leaking between instances through class-level or
+        # default-argument objects then differs between the twins)
+        a = build_world(t)
+        noise = build_world(t, seed_shift=1, other=True) if t.get("noise", True) else None
+        return SeededTwin(a, build_world(t), noise)
     finally:
         scheds.share(False)
 
@@ -113,6 +118,9 @@ def a_configs(tier, seed):
     # PBT with a population large enough for a real choice among the upper quantile
     out.append(dict(src="generic", max_states=2500 if tier == "quick" else 8000,
                     cfg=dict(kind="pbt", seed=seed, R=3, W=4, T=6, F=0, mode="min", kw=dict(population_size=4))))
+    # grid search on a numerical space while an unrelated grid search on a smaller space (same names) runs in the same process
+    out.append(dict(src="generic", max_states=1500 if tier == "quick" else 5000, noise_kw=dict(grid_space="num-small"),
+                    cfg=dict(kind="fifo-grid", seed=seed, R=3, W=2, T=5, F=1, mode="min", kw=dict(grid_space="num"))))
     # one restrict_configurations list object handed to all instances
     for kind in ("fifo-random", "hb-promotion"):
         out.append(dict(src="generic", max_states=1500 if tier == "quick" else 5000,
@@ -135,6 +143,28 @@ def child_traces(tier, seed):
     """run in a fresh process: digest of every observation trace of a fixed set of explorations (no twin),
     and the result table of simulated experiments with equal seeds"""
     out = {}
+    # state leaking between instances through process-global objects (class attributes, mutable default arguments) only shows
+    # for the first instances of a process: twin A is created and driven, then an unrelated instance (other seed, for grid
+    # search another space with the same names), then twin B with the arguments of A
+    for t in a_configs(tier, seed):
+        if t["src"] != "generic" or t["cfg"].get("W") != 2:
+            continue
+        def drive(w, n=12):
+            for _ in range(n):
+                en = w.enabled()
+                if not en or w.dead:
+                    break
+                w.step(en[0])
+            return repr(w.trace)
+        scheds.share(True)
+        try:
+            ta = drive(build_world(t))
+            drive(build_world(t, seed_shift=1, other=True), 6)
+            tb = drive(build_world(t))
+        finally:
+            scheds.share(False)
+        out["inproc:" + ctx_of(t) + ("/" + json.dumps(t["cfg"].get("kw"), sort_keys=True) if t["cfg"].get("kw") else "")] = \
+            "same" if ta == tb else "differs: first instance " + ta[:300] + " ... instance created after an unrelated one " + tb[:300]
     for t in a_configs(tier, seed)[:: (3 if tier == "quick" else 2)]:
         t = dict(t, max_states=400 if tier == "quick" else 4000)
         traces = []
@@ -207,6 +237,14 @@ def run(tier, seed):
     res.cov.add("fresh_process_traces", 2 * len(a))
     for k in sorted(set(a) | set(b)):
         res.cov.add("traces_validated_against_impl", 2)
+        if k.startswith("inproc:"):
+            for which, d in (("0", a), ("4242", b)):
+                if d.get(k) != "same":
+                    res.violations.append(Violation(PROP, "inproc|" + k[7:].split("/{")[0] + "|twin-created-after-an-unrelated-instance-differs",
+                                                    f"fresh process (PYTHONHASHSEED {which}): {k[7:]}: {d.get(k)}",
+                                                    {"engine": "fresh-process", "key": k}))
+                    break
+            continue
         if a.get(k) != b.get(k):
             res.violations.append(Violation(PROP, "hashseed|" + ("sim-table-differs:" + k[4:] if k.startswith("sim:") else "traces-differ:" + json.loads(k)["ctx"]),
                                             f"two fresh processes (PYTHONHASHSEED 0 / 4242, equal seeds) disagree on {k}: {a.get(k)} vs {b.get(k)}",
@@ -228,6 +266,8 @@ def replay(data):
     if data.get("engine") == "fresh-process":
         a, b = run_children("quick", env.seed())
         k = data["key"]
+        if k.startswith("inproc:"):
+            return [Violation(PROP, "inproc", str(d.get(k))) for d in (a, b) if d.get(k) != "same"][:1]
         return [Violation(PROP, "hashseed", f"{a.get(k)} vs {b.get(k)}")] if a.get(k) != b.get(k) else []
     t = dict(src=data["cfg"]["src"], cfg=data["cfg"]["cfg"])
     w = build_twin(t)
